@@ -45,6 +45,17 @@ def NoEmpty (s : FSA V L) : Prop := ∀ v w ls, s.og v w = some ls → ls ≠ []
 /-- coherent and without empty entries: the invariant of the class -/
 def WF (s : FSA V L) : Prop := s.Coherent ∧ s.NoEmpty
 
+
+/-! ### graph distance (for `remove_long_paths`) -/
+
+/-- `Walk s r x n`: there is a walk of `n` edges of the label view from `r` to `x` -/
+inductive Walk (s : FSA V L) (r : V) : V → Nat → Prop
+  | zero : Walk s r r 0
+  | succ {v w : V} {l : L} {n : Nat} : Walk s r v n → s.step v l = some w → Walk s r w (n + 1)
+
+/-- `n` is the graph distance from `r` to `x` -/
+def IsDist (s : FSA V L) (r x : V) (n : Nat) : Prop := Walk s r x n ∧ ∀ m, Walk s r x m → n ≤ m
+
 /-! ### the plain set model -/
 
 /-- a vertex set and a set of labelled edges `tail —label→ head`; nothing else -/
@@ -110,6 +121,7 @@ def applyOp (m : SetFSA V L) : Op V L → SetFSA V L
   | .recurrent => m.recurrent
   | .rename f => m.rename f
   | .copy => m
+  | .hasEdge _ _ => m
 
 def run (m : SetFSA V L) (ops : List (Op V L)) : SetFSA V L := ops.foldl applyOp m
 
@@ -139,6 +151,7 @@ def Pre (m : SetFSA V L) : Op V L → Prop
   | .rename f => (∀ v l w, m.edges v l w → ∃ l', f.get? l = some l') ∧
       (∀ v l₁ w₁ l₂ w₂ l', m.edges v l₁ w₁ → m.edges v l₂ w₂ → f.get? l₁ = some l' → f.get? l₂ = some l' → l₁ = l₂)
   | .copy => True
+  | .hasEdge t h => ∃ l, m.edges t l h      -- the query is asked about an existing edge
 
 /-- every operation of the history meets its precondition in the state it is applied to -/
 def HistOK : SetFSA V L → List (Op V L) → Prop
